@@ -38,6 +38,7 @@ ANCHORS = [('spatialmath.super_pose', 'SMPose.' + n) for n in ('__mul__', '__rmu
 
 OPS = [('*', operator.mul), ('/', operator.truediv), ('+', operator.add), ('-', operator.sub), ('**', operator.pow),
        ('@', operator.matmul), ('==', operator.eq), ('!=', operator.ne), ('^', operator.xor), ('|', operator.or_)]
+OPS += [('*=', operator.imul), ('/=', operator.itruediv), ('+=', operator.iadd), ('-=', operator.isub)]     # same verdicts as the binary forms
 ARITH = ('*', '/', '+', '-', '**', '@')
 POSE = ('SO2', 'SE2', 'SO3', 'SE3')
 XV = ('SpatialVelocity', 'SpatialAcceleration', 'SpatialForce', 'SpatialMomentum')
@@ -353,14 +354,17 @@ def run_pair(ctx, L, R):
         if not ctx.want(cid):
             continue
         lo, ro = L.make(), R.make()
-        vd = verdict(L, R, opn)
+        aug = opn.endswith('=') and opn not in ('==', '!=')
+        if aug and L.cls == 'list':
+            continue        # list += <iterable> / list *= n is Python's own list semantics: the library is never consulted
+        vd = verdict(L, R, opn[:-1] if aug else opn)
         triv = not (islib(L) or islib(R))
         ctx.case(cid, key=cid, trivial=triv)
         ok, v = call(opf, lo, ro)
         ctx.cell(L.cls, opn, R.cls, 'raised' if not ok else classname(v))
         P = dict(left=L.cls, right=R.cls, op=opn, m=L.n, n=R.n, ltag=L.tag or '', rtag=R.tag or '')
         site = '%s.%s' % (L.cls if islib(L) else R.cls, {'*': 'mul', '/': 'div', '+': 'add', '-': 'sub', '**': 'pow', '@': 'matmul',
-                                                       '==': 'eq', '!=': 'ne', '^': 'xor', '|': 'or'}[opn])
+                                                       '==': 'eq', '!=': 'ne', '^': 'xor', '|': 'or', '*=': 'imul', '/=': 'idiv', '+=': 'iadd', '-=': 'isub'}[opn])
         nexp = max(L.n, R.n)
         if vd[0] == 'free':
             ctx.note('unconstrained', '%s %s %s -> %s' % (L.cls, opn, R.cls, ('raises ' + type(v).__name__) if not ok else describe(v)))
@@ -388,7 +392,7 @@ def run_pair(ctx, L, R):
                 if same and bool(got) != (opn == '=='):
                     ctx.fail(cid, site, 'mismatch', P, '%s %s %s gives %r for equal first values' % (L.name, opn, R.name, got))
                 continue
-            rv = ref_value(L, R, opn, lo, ro)
+            rv = ref_value(L, R, opn[:-1] if aug else opn, L.make(), R.make())
             if rv is None:
                 continue
             got = first_value(v, L)
